@@ -583,7 +583,7 @@ func (cfg *Config) assignElem(name string, vr Variable, idx syntax.ArithmExpr, v
 }
 
 func (cfg *Config) namesByPrefix(prefix string) []string {
-	var names []string
+	names := []string{}
 	for name := range cfg.Env.Each {
 		if strings.HasPrefix(name, prefix) {
 			names = append(names, name)
